@@ -52,6 +52,9 @@ def compress_settings(settings):
                             current_scenario_transformed[value_type][constant].append(constant_value)
     if len(steps) > 0:
         scenario_managers[STEPS_KEY] = steps
+    # settings without any value (e.g. {"constants": {}}) leave no trace in the positional format: keep such logs as they are
+    if decompress_settings(scenario_managers) != settings:
+        return {RAW_KEY: settings}
     return scenario_managers
 
 
